@@ -89,6 +89,10 @@ def run_tlc(workdir: str, module: str, cfg: str | None = None, *, workers: int |
     deadlock=False  => `-deadlock` is passed (deadlock checking off), the usual case for bounded models.
     simulate={"num": N, "depth": D, "file": path?}.
     """
+    if workers == "auto" and os.environ.get("VERIF_TLC_WORKERS"):
+        workers = os.environ["VERIF_TLC_WORKERS"]
+    if max_heap is None:
+        max_heap = os.environ.get("VERIF_TLC_HEAP", "6g")
     scratch = scratch or os.path.join(workdir, "_tlc")
     os.makedirs(scratch, exist_ok=True)
     meta = os.path.join(scratch, "meta_%d" % time.time_ns())
